@@ -5,7 +5,9 @@ import (
 	"go/ast"
 	"go/token"
 	"go/types"
+	"os"
 	"sort"
+	"strings"
 
 	"jsverif/internal/prog"
 )
@@ -104,7 +106,9 @@ func (c *Ctx) earlySuccessFindings(f *Fn) []earlyFinding {
 		if ret, ok := list[n-1].(*ast.ReturnStmt); ok && len(ret.Results) == 1 && sig.Results().Len() == 1 {
 			if call, ok := ast.Unparen(ret.Results[0]).(*ast.CallExpr); ok {
 				if cal := callee(f.Pkg, call); cal != nil && c.P.IsLibPkg(cal.Pkg()) {
-					if cs, ok := cal.Type().(*types.Signature); ok && cs.Results().Len() == 1 && isErrorLike(cs.Results().At(0).Type()) && !isErrorConstructor(cal) {
+					// only a callee that does nothing but judge: when the tail call is the action of the function (it
+					// adds something to the catalog), a `return nil` in front of it is the path with nothing to add
+					if cs, ok := cal.Type().(*types.Signature); ok && cs.Results().Len() == 1 && isErrorLike(cs.Results().At(0).Type()) && !isErrorConstructor(cal) && c.looksPure(cal, 0) {
 						checks = append(checks, chk{n - 1, call})
 					}
 				}
@@ -147,6 +151,135 @@ func (c *Ctx) earlySuccessFindings(f *Fn) []earlyFinding {
 		})
 	}
 	return out
+}
+
+// looksPure: the function, and the library functions it calls (four levels), change nothing of the state the build
+// works on: no assignment, ++/-- or delete whose target goes through a field of a type of package catalog or core
+// (the catalog, the core, their collections - the generated ordered maps store into their own fields), and no call
+// through a function value (what a callback does is not known here). Building an error, reading a directive and
+// filling local structures are not changes of that state.
+func (c *Ctx) looksPure(fn *types.Func, depth int) bool {
+	if c.pureMemo == nil {
+		c.pureMemo = map[*types.Func]int{}
+	}
+	if v, ok := c.pureMemo[fn.Origin()]; ok {
+		return v == 1
+	}
+	// a package that does not import catalog or core cannot name their fields: by the import graph, the functions of
+	// directive, jerr, scanner and notation change nothing of that state, whatever they do
+	if fn.Pkg() != nil && c.P.IsLibPkg(fn.Pkg()) {
+		importsState := false
+		for _, imp := range fn.Pkg().Imports() {
+			if strings.HasSuffix(imp.Path(), "/catalog") || strings.HasSuffix(imp.Path(), "/jsight-api-core/core") {
+				importsState = true
+			}
+		}
+		p := fn.Pkg().Path()
+		if !importsState && !strings.HasSuffix(p, "/catalog") && !strings.HasSuffix(p, "/jsight-api-core/core") {
+			c.pureMemo[fn.Origin()] = 1
+			return true
+		}
+	}
+	f := c.fnOf(fn)
+	if f == nil || f.Decl == nil || f.Decl.Body == nil {
+		// an interface method of the library is not known; a function of another module is not the build's state
+		if fn.Pkg() != nil && c.P.IsLibPkg(fn.Pkg()) {
+			return false
+		}
+		return true
+	}
+	if depth > 10 {
+		return false
+	}
+	c.pureMemo[fn.Origin()] = 1 // assume while recursing
+	pk := f.Pkg
+	pure := true
+	stateField := func(e ast.Expr) bool {
+		hit := false
+		for {
+			switch x := ast.Unparen(e).(type) {
+			case *ast.SelectorExpr:
+				if fld := fieldSel(pk, x); fld != nil && fld.Pkg() != nil {
+					p := fld.Pkg().Path()
+					if strings.HasSuffix(p, "/catalog") || strings.HasSuffix(p, "/jsight-api-core/core") {
+						hit = true
+					}
+				}
+				e = x.X
+				continue
+			case *ast.IndexExpr:
+				e = x.X
+				continue
+			case *ast.StarExpr:
+				e = x.X
+				continue
+			case *ast.Ident:
+				// a value (not a pointer) that lives in this function is not the state of the build
+				if v, ok := pk.TypesInfo.ObjectOf(x).(*types.Var); ok && !v.IsField() && v.Pos() >= f.Decl.Body.Pos() && v.Pos() <= f.Decl.Body.End() {
+					if _, isPtr := v.Type().Underlying().(*types.Pointer); !isPtr {
+						if _, isMap := v.Type().Underlying().(*types.Map); !isMap {
+							return false
+						}
+					}
+				}
+			}
+			return hit
+		}
+	}
+	ast.Inspect(f.Decl.Body, func(nd ast.Node) bool {
+		if !pure {
+			return false
+		}
+		switch x := nd.(type) {
+		case *ast.AssignStmt:
+			for _, l := range x.Lhs {
+				if stateField(l) {
+					pure = false
+					if os.Getenv("VERIF_DEBUG_PURE") != "" {
+						fmt.Fprintln(os.Stderr, "  store:", exprString(l), "in", prog.FuncName(fn))
+					}
+				}
+			}
+		case *ast.IncDecStmt:
+			if stateField(x.X) {
+				pure = false
+			}
+		case *ast.CallExpr:
+			if id, ok := x.Fun.(*ast.Ident); ok && id.Name == "delete" && len(x.Args) == 2 && stateField(x.Args[0]) {
+				pure = false
+				return true
+			}
+			cal := callee(pk, x)
+			if cal == nil {
+				// a conversion, a builtin, or a call through a function value
+				if tv, has := pk.TypesInfo.Types[x.Fun]; has && !tv.IsType() && !tv.IsBuiltin() {
+					if _, isSig := tv.Type.Underlying().(*types.Signature); isSig {
+						pure = false
+						if os.Getenv("VERIF_DEBUG_PURE") != "" {
+							fmt.Fprintln(os.Stderr, "  value call:", exprString(x.Fun), "in", prog.FuncName(fn))
+						}
+					}
+				}
+				return true
+			}
+			if cal.Pkg() != nil && c.P.IsLibPkg(cal.Pkg()) && !c.looksPure(cal, depth+1) {
+				pure = false
+				if os.Getenv("VERIF_DEBUG_PURE") != "" {
+					fmt.Fprintln(os.Stderr, "  callee:", prog.FuncName(cal), "in", prog.FuncName(fn))
+				}
+			}
+		}
+		return true
+	})
+	if pure {
+		c.pureMemo[fn.Origin()] = 1
+	} else {
+		c.pureMemo[fn.Origin()] = 2
+		if os.Getenv("VERIF_DEBUG_PURE") != "" {
+			fmt.Fprintln(os.Stderr, "impure:", prog.FuncName(fn))
+		}
+	}
+	return pure
 }
 
 // isErrorConstructor: a function that makes an error (KeywordError, BodyError, ...): returning its result is a failure,
